@@ -24,6 +24,7 @@ type Case struct {
 	Inputs  []*TJ          `json:"inputs,omitempty"`
 	Outputs []string       `json:"outputs,omitempty"`
 	Dts     []*string      `json:"dts,omitempty"`
+	Share   [][2]int       `json:"share,omitempty"` // (i, j): input i is the very tensor object of input j
 	P       map[string]any `json:"p,omitempty"`
 	Graph   *GraphJ        `json:"graph,omitempty"`
 	Impl    *Result        `json:"impl"`
@@ -77,6 +78,12 @@ func (e *emitter) close() { e.w.Flush() }
 
 // runOp runs one operator the way Model.applyOp does: GetOperator, Init, ValidateInputs, Apply.
 func runOp(name string, attrs []Attr, inputs []*TJ, outNames []string) *Result {
+	return runOpShared(name, attrs, inputs, outNames, nil)
+}
+
+// runOpShared additionally passes one tensor object at several input positions (as Run does when a
+// node lists the same name twice).
+func runOpShared(name string, attrs []Attr, inputs []*TJ, outNames []string, share [][2]int) *Result {
 	return guard(func() *Result {
 		op, err := opset13.GetOperator(name)
 		if err != nil {
@@ -100,6 +107,9 @@ func runOp(name string, attrs []Attr, inputs []*TJ, outNames []string) *Result {
 		for i, t := range inputs {
 			ts[i] = mkTensor(t)
 			snaps[i] = snapshot(ts[i])
+		}
+		for _, p := range share {
+			ts[p[0]] = ts[p[1]]
 		}
 		orig := append([]tensor.Tensor{}, ts...)
 		vts, err := op.ValidateInputs(ts)
